@@ -193,6 +193,7 @@ func H_C07_q() { c := vCase(); hC07(2, 2, 1, 4, 2, false, (c/8)%2) }
 
 // H_C07_c: 3 keys in one chain, case = first op (12): two threads with one operation each and a Compact thread
 func H_C07_c() { hC07(2, 1, 1, 4, 2, true, 0) }
+
 // thorough: case = first op (12) x layout (2)
 func H_C07_t22() { c := vCase(); hC07(2, 2, 2, 6, 2, false, (c/12)%2) }
-func H_C07_t() { c := vCase(); hC07(3, 2, 1, 4, 2, false, (c/8)%2) }
+func H_C07_t()   { c := vCase(); hC07(3, 2, 1, 4, 2, false, (c/8)%2) }
